@@ -108,7 +108,7 @@ def DfsPost (g : Graph) (N : Nat) (colors : List Nat) (r : List Nat × Bool) : P
   (r.2 = false → r.1.length = N ∧ (∀ v, r.1.getD v 0 = 1 ↔ colors.getD v 0 = 1) ∧
     (∀ v, r.1.getD v 0 = 0 → colors.getD v 0 = 0))
 
-theorem getD_set_cases (l : List Nat) (i j a : Nat) :
+theorem getD_set_casesNat (l : List Nat) (i j a : Nat) :
     (l.set i a).getD j 0 = if i = j ∧ i < l.length then a else l.getD j 0 := by
   simp only [List.getD_eq_getElem?_getD, List.getElem?_set]
   by_cases h : i = j
@@ -150,7 +150,7 @@ theorem dfs_spec (g : Graph) (N : Nat) (hdst : ∀ n e, e ∈ g.edges.getD n [] 
         getD_set_self colors node 1 0 (by omega)
       have hwm : ∀ v, v < N → (colors.set node 1).getD v 0 = 0 → colors.getD v 0 = 0 := by
         intro v _ hv
-        rw [getD_set_cases] at hv
+        rw [getD_set_casesNat] at hv
         split at hv
         · cases hv
         · exact hv
@@ -160,7 +160,7 @@ theorem dfs_spec (g : Graph) (N : Nat) (hdst : ∀ n e, e ∈ g.edges.getD n [] 
         (fun e h => h) (by omega)
         (by
           intro v hv
-          rw [getD_set_cases] at hv
+          rw [getD_set_casesNat] at hv
           split at hv
           · rename_i hc; exact Or.inl hc.1.symm
           · exact Or.inr (hgray v hv))
@@ -181,7 +181,7 @@ theorem dfs_spec (g : Graph) (N : Nat) (hdst : ∀ n e, e ∈ g.edges.getD n [] 
           rw [List.length_set]; exact hl2
         · intro v
           show (c2.set node 2).getD v 0 = 1 ↔ colors.getD v 0 = 1
-          rw [getD_set_cases]
+          rw [getD_set_casesNat]
           split
           · rename_i hc
             obtain ⟨rfl, _⟩ := hc
@@ -192,7 +192,7 @@ theorem dfs_spec (g : Graph) (N : Nat) (hdst : ∀ n e, e ∈ g.edges.getD n [] 
             rw [hg2 v, getD_set_other colors node v 1 0 (Ne.symm hne)]
         · intro v hv
           change (c2.set node 2).getD v 0 = 0 at hv
-          rw [getD_set_cases] at hv
+          rw [getD_set_casesNat] at hv
           split at hv
           · cases hv
           · rename_i hc
